@@ -60,6 +60,7 @@ def plan(tier, seed):
         herm = True if cls in ("asymmetric_mask", "nonhermitian_symbolic") else bool(rng.random() < 0.7)
         spec = matprob.gen_spec(rng, "quick", hermitian=herm, **force)
         spec["offset"] = 0
+        spec["symbolic"] = False  # with free symbols sympy cannot *prove* non-Hermiticity / non-zero blocks: outside the classes
         spec["max_total"] = min(spec["max_total"], 2)
         if cls == "not_orthonormal":
             spec["design"] = "vectors"
@@ -312,9 +313,13 @@ def run_case(spec):
             vecs[b] = damage(vecs[b], other)
         else:
             Rb, Lb = vecs[b]
-            Rall = np.hstack([np.array(v[0].tolist() if isinstance(v[0], sympy.MatrixBase) else v[0], dtype=complex) for v in vecs])
-            if how == "swap_left" and np.allclose(Rall.conj().T @ Rall, np.eye(Rall.shape[1]), atol=1e-9):
-                how = variant = "scale"  # the right vectors happen to be orthonormal: (R, R) would be a valid basis
+            def _arr(v):
+                return np.array(v.tolist() if isinstance(v, sympy.MatrixBase) else v, dtype=complex)
+
+            Rall = np.hstack([_arr(v[0]) for v in vecs])
+            Lswap = np.hstack([_arr(v[0] if q == b else v[1]) for q, v in enumerate(vecs)])
+            if how == "swap_left" and np.allclose(Lswap.conj().T @ Rall, np.eye(Rall.shape[1]), atol=1e-9):
+                how = variant = "scale"  # (R_b, R_b) happens to be biorthonormal with the rest: a valid basis
             if how == "swap_left":
                 vecs[b] = (Rb, Rb)  # left vectors replaced by the right ones: not biorthogonal
             else:
